@@ -426,6 +426,11 @@ func c10Case(ch choose.Chooser, cfg walkCfg, rec *ev.Recorder) error {
 	checked := 0
 	// submissions are checked at the end; replaced rows are found in the history table (KeepCertificatesHistory)
 	r.drain()
+	// a byte-identical retry gets the id of the certificate it replaces: the node's stored copy is that of the latest one
+	lastWithID := map[common.Hash]int{}
+	for k, sub := range r.grpc.subs {
+		lastWithID[sub.ID] = k
+	}
 	for k, sub := range r.grpc.subs {
 		desc := fmt.Sprintf("certificate #%d (height %d, %d exits, %d imported)", k, sub.InMem.Height, len(sub.InMem.BridgeExits), len(sub.InMem.ImportedBridgeExits))
 		// (1) the signature is the configured signer's over the commitment of what is on the wire
@@ -443,7 +448,7 @@ func c10Case(ch choose.Chooser, cfg walkCfg, rec *ev.Recorder) error {
 			return fmt.Errorf("%s: wire message differs from the certificate that was signed: %s\n  schedule: %s", desc, d, r.key())
 		}
 		js, e := storedJSONAny(r.storageDir, sub.ID)
-		if e == nil {
+		if e == nil && lastWithID[sub.ID] == k {
 			if d := storedVsMem(js, sub.InMem); d != "" {
 				return fmt.Errorf("%s: stored copy differs from the certificate that was signed and sent: %s\n  schedule: %s", desc, d, r.key())
 			}
